@@ -114,6 +114,9 @@ pub struct SnapEvent {
     pub opened_in_life: usize,
     pub life_at_call: usize,
     pub accesses: u64,
+    /// (quiesced calls) the writer was idle between publications or had exited cleanly - not dead
+    /// inside an update - and at least one publication had completed in its current/last life
+    pub writer_idle_after_publication: bool,
 }
 
 #[derive(Clone, Debug)]
@@ -143,6 +146,7 @@ pub struct ConcRun {
 struct Shared {
     events: Vec<Event>,
     life_now: usize,
+    writer_idle_after_publication: bool,
 }
 
 fn err_name(e: &ShmError) -> String {
@@ -152,6 +156,11 @@ fn err_name(e: &ShmError) -> String {
 fn file_meta(path: &std::path::Path) -> (u64, Vec<u8>) {
     let ino = std::fs::metadata(path).map(|m| m.ino()).unwrap_or(0);
     (ino, std::fs::read(path).unwrap_or_default())
+}
+
+/// Did the current writer life complete at least one publication?
+fn pubs_in_life(world: &Rc<World>, first: u32) -> bool {
+    world.0.borrow().pubs_completed.last().map(|p| *p > first).unwrap_or(false)
 }
 
 pub const ACCESS_BUDGET: u64 = 1 << 25;
@@ -195,7 +204,7 @@ pub fn run_conc(case: &ConcCase, env: &mut Env, opts: &RunOpts) -> ConcRun {
     if path.exists() {
         world.sync_with_file(None);
     }
-    let shared = Rc::new(RefCell::new(Shared { events: vec![], life_now: 0 }));
+    let shared = Rc::new(RefCell::new(Shared { events: vec![], life_now: 0, writer_idle_after_publication: false }));
     let mut ctl = Controller::new(world.clone());
     let cpath = CString::new(path.to_str().unwrap()).unwrap();
 
@@ -270,6 +279,7 @@ pub fn run_conc(case: &ConcCase, env: &mut Env, opts: &RunOpts) -> ConcRun {
                         };
                         let (stats, c_end, acc1) = with_world(|w, tid| (w.threads[tid].call.clone(), w.pubs_completed.last().copied(), w.threads[tid].accesses_total)).unwrap();
                         let life_at_call = sh.borrow().life_now;
+                        let idle_flag = sh.borrow().writer_idle_after_publication;
                         sh.borrow_mut().events.push(Event::Snap(SnapEvent {
                             reader: ri,
                             op: oi,
@@ -282,6 +292,7 @@ pub fn run_conc(case: &ConcCase, env: &mut Env, opts: &RunOpts) -> ConcRun {
                             opened_in_life,
                             life_at_call,
                             accesses: acc1 - acc0,
+                            writer_idle_after_publication: kind == 1 && idle_flag,
                         }));
                         marker(Pending::CallEnd);
                     }
@@ -405,9 +416,12 @@ pub fn run_conc(case: &ConcCase, env: &mut Env, opts: &RunOpts) -> ConcRun {
     };
 
     let max_steps: u64 = 400_000_000;
+    let mut last_life_crashed = false;
+    let mut life_first_pub: u32 = 0;
     loop {
         if writer.is_none() && next_life < case.lives.len() {
             writer_life = next_life;
+            life_first_pub = world.0.borrow().pubs_started;
             writer = Some(spawn_life(&mut ctl, next_life));
             next_life += 1;
         }
@@ -496,12 +510,12 @@ pub fn run_conc(case: &ConcCase, env: &mut Env, opts: &RunOpts) -> ConcRun {
                         };
                         if alive && st.is_some() && Some(sp - 1) == st {
                             ctl.crash(wi);
-                            end_life(&ctl, writer_life, wi, true, &shared);
+                            { last_life_crashed = true; end_life(&ctl, writer_life, wi, true, &shared); }
                             writer = None;
                             break;
                         }
                         if !alive {
-                            end_life(&ctl, writer_life, wi, false, &shared);
+                            { last_life_crashed = false; end_life(&ctl, writer_life, wi, false, &shared); }
                             writer = None;
                             break;
                         }
@@ -509,6 +523,13 @@ pub fn run_conc(case: &ConcCase, env: &mut Env, opts: &RunOpts) -> ConcRun {
                 }
                 let tid = ctl.threads[i].tid;
                 world.raise_view(tid);
+                {
+                    // is the writer idle (or cleanly gone) after having completed a publication in this life?
+                    let completed_in_life = pubs_in_life(&world, life_first_pub);
+                    let idle_alive = writer.map(|wi| ctl.alive(wi) && ctl.threads[wi].pending == Some(Pending::Idle)).unwrap_or(false);
+                    let gone_clean = writer.is_none() && !last_life_crashed;
+                    shared.borrow_mut().writer_idle_after_publication = (idle_alive || gone_clean) && completed_in_life;
+                }
                 let mut guard = 0u64;
                 loop {
                     let alive = ctl.step(i);
@@ -532,7 +553,7 @@ pub fn run_conc(case: &ConcCase, env: &mut Env, opts: &RunOpts) -> ConcRun {
                     while ctl.alive(wi) && world.0.borrow().pubs_completed.len() == before && g2 < 10_000 {
                         g2 += 1;
                         if !ctl.step(wi) {
-                            end_life(&ctl, writer_life, wi, false, &shared);
+                            { last_life_crashed = false; end_life(&ctl, writer_life, wi, false, &shared); }
                             writer = None;
                             break;
                         }
@@ -542,7 +563,7 @@ pub fn run_conc(case: &ConcCase, env: &mut Env, opts: &RunOpts) -> ConcRun {
                     while writer.is_some() && ctl.alive(wi) && ctl.threads[wi].pending != Some(Pending::Idle) && g2 < 20_000 {
                         g2 += 1;
                         if !ctl.step(wi) {
-                            end_life(&ctl, writer_life, wi, false, &shared);
+                            { last_life_crashed = false; end_life(&ctl, writer_life, wi, false, &shared); }
                             writer = None;
                             break;
                         }
@@ -565,7 +586,7 @@ pub fn run_conc(case: &ConcCase, env: &mut Env, opts: &RunOpts) -> ConcRun {
                             while ctl.alive(wi) && (first || ctl.threads[wi].pending != Some(Pending::Idle)) {
                                 first = false;
                                 if !ctl.step(wi) {
-                                    end_life(&ctl, writer_life, wi, false, &shared);
+                                    { last_life_crashed = false; end_life(&ctl, writer_life, wi, false, &shared); }
                                     writer = None;
                                     break;
                                 }
@@ -587,11 +608,11 @@ pub fn run_conc(case: &ConcCase, env: &mut Env, opts: &RunOpts) -> ConcRun {
                 (s.threads[tid].sched_points, s.threads[tid].stop_at)
             };
             if !alive {
-                end_life(&ctl, writer_life, i, false, &shared);
+                { last_life_crashed = false; end_life(&ctl, writer_life, i, false, &shared); }
                 writer = None;
             } else if st.is_some() && Some(sp - 1) == st {
                 ctl.crash(i);
-                end_life(&ctl, writer_life, i, true, &shared);
+                { last_life_crashed = true; end_life(&ctl, writer_life, i, true, &shared); }
                 writer = None;
             }
         }
@@ -845,6 +866,15 @@ pub fn judge(run: &ConcRun, case: &ConcCase, want_c03: bool, want_c18: bool) -> 
                         }
                         if want_c18 && must_serve_cache && s.stats.loads > 2 {
                             fail(&mut j, format!("reader {} call {}: {} shared loads although the first values read (version {:?}, generation {:?}) require an immediate answer from the cache", r, s.op, s.stats.loads, first_v, first_g));
+                        }
+                        // C11 seen from a client: no update in flight (writer idle or cleanly gone after a
+                        // completed publication), yet the generation is odd or zero
+                        if want_c03 && s.kind == 1 && s.writer_idle_after_publication {
+                            if let Some(g) = first_g {
+                                if g & 1 == 1 || g == 0 {
+                                    fail(&mut j, format!("reader {} call {}: the writer is idle after a completed publication, yet the generation reads {} (odd or zero): clients are stuck on their cached record", r, s.op, g));
+                                }
+                            }
                         }
                         // C03 (3): catch-up when quiesced
                         if want_c03 && s.kind == 1 && !tainted[r] {
